@@ -175,7 +175,7 @@ R.contract(
     ensures={},
     modifies=[],
     allocates=False,
-    props=["C17"],
+    props=["C17", "C13"],
     note="as used by the selection key function after the population has been evaluated: a no-op",
 )
 R.contract("Individual.key_function", file=IND, inline=True, params=dict(problem="Problem"), returns="any", verify=False)
@@ -194,7 +194,10 @@ R.contract(
         "first_is_max": "forall(0, len(population), lambda e: len(result) >= 1 and "
         "result[0].fitness_store[problem].maximizing_aggregate >= population[e].fitness_store[problem].maximizing_aggregate)",
         "evaluated": "forall(0, len(result), lambda k: problem in result[k].fitness_store)",
+        "every_input_appears": "len(INV) == len(population) and forall(0, len(population), lambda e: "
+        "0 <= INV[e] and INV[e] < len(result) and same(result[INV[e]], population[e]))",
     },
+    witnesses={"INV": ("SORTINV0", "list[int]")},
     proves={
         "is_permutation": "len(SORTPERM0) == len(population) and forall(0, len(population), lambda i: "
         "0 <= SORTPERM0[i] and SORTPERM0[i] < len(population) and same(result[i], population[SORTPERM0[i]]) and SORTINV0[SORTPERM0[i]] == i)",
@@ -221,11 +224,11 @@ R.contract(
     },
     proves={
         "top_k": "forall(0, len(candidates), lambda e: forall(0, target_size, lambda j: "
-        "exists(0, target_size, lambda m: same(new_population[m], candidates[e])) or "
+        "(WIT_INV[e] < target_size and same(new_population[WIT_INV[e]], candidates[e])) or "
         "new_population[j].fitness_store[problem].maximizing_aggregate >= candidates[e].fitness_store[problem].maximizing_aggregate))",
     },
     modifies=["evaluator.count", "problem.ff.fn.ncalls", "all:dict", "all:field:phenotype"],
-    props=["C15", "C16"],
+    props=["C15", "C16", "C13"],
 )
 
 # ---- remaining steps ---------------------------------------------------------------------------------------
@@ -291,7 +294,7 @@ R.contract(
         "yielded.fitness_store[problem].maximizing_aggregate >= candidates[c].fitness_store[problem].maximizing_aggregate)",
     },
     modifies=["random.*", "evaluator.count", "problem.ff.fn.ncalls", "all:dict", "all:field:phenotype"],
-    props=["C15", "C17"],
+    props=["C15", "C17", "C13"],
 )
 
 R.contract(
@@ -359,7 +362,7 @@ R.contract(
     returns="iter[Individual]",
     requires={**STEP_REQ, **DISTINCT},
     modifies=["evaluator.count", "problem.ff.fn.ncalls", "all:dict", "all:field:phenotype"],
-    props=["C15"],
+    props=["C15", "C13"],
 )
 R.contract(
     "SequenceStep.iterate",
